@@ -7,3 +7,7 @@ def run_cformat_floats(ctx):
 
 def replay_cell(ctx, c):
     pass
+
+
+def run_format_floats(ctx):
+    pass
